@@ -26,14 +26,16 @@ func main() {
 		QuickDeadline: 150e9, Chunk: 32,
 		Build: func(tier string) (kit.Space, string) {
 			rad := wk.TierRadices(slots, tier)
+			order := []int{0, 2, 6} // quick: osm, custom-2^63 ('/' namespaces, top-bit values), mixed-ns
 			ns := 3
 			if tier == "thorough" {
 				ns = len(wk.Schemes)
+				order = []int{0, 2, 6, 1, 3, 4, 5, 7, 8}
 			}
 			n := kit.Product(rad)
 			return kit.FuncSpace{N: n * int64(ns), F: func(i int64) kit.Result {
 				var r kit.Result
-				sch := wk.Schemes[i/n]
+				sch := wk.Schemes[order[i/n]]
 				choice := kit.Digits(i%n, rad)
 				spec := wk.Expand(slots, choice, sch)
 				valid, dropped := wk.ValidSubset(spec)
